@@ -147,6 +147,7 @@ def falsy(cond):
             p = canon(children(callee)[0])
             if p:
                 out.add(('B', '0', '<', p + '.size()'))
+                out.add('NZ:' + p + '.size()')
         return out
     return out
 
